@@ -59,3 +59,19 @@ Check usable_again_once_the_line_completes :
     w_async (run_story_ops I sw_now ops w) = false ->
     between_calls (run_story_ops I sw_now ops w).
 Print Assumptions usable_again_once_the_line_completes.
+
+(* (5) the other half of the loop theorem: a time-limited run of the loop that does NOT pause ends exactly as the
+   unsliced loop from the same core state ends (same outcome, same world up to the loop's own bookkeeping) *)
+From Ink.Shell Require Import SlicingPlain.
+Theorem loop_without_pause_is_the_plain_loop :
+  forall (I : iface) (sw : switches) n w r p l r' p' l' o w1,
+    continue_loop I sw n (shell_upd true r p l w) = (o, w1) ->
+    (o = OOk false -> m_can_continue w1 = (OOk false, w1)) ->
+    continue_loop I sw n (shell_upd false r' p' l' w) = (o, shell_upd false r' p' l' w1).
+Proof. exact SlicingPlain.loop_without_pause_is_the_plain_loop. Qed.
+Check loop_without_pause_is_the_plain_loop :
+  forall (I : iface) (sw : switches) n w r p l r' p' l' o w1,
+    continue_loop I sw n (shell_upd true r p l w) = (o, w1) ->
+    (o = OOk false -> m_can_continue w1 = (OOk false, w1)) ->
+    continue_loop I sw n (shell_upd false r' p' l' w) = (o, shell_upd false r' p' l' w1).
+Print Assumptions loop_without_pause_is_the_plain_loop.
